@@ -1,4 +1,4 @@
-import RV.C13.Lemmas
+import RV.C13.LemmasG
 /-
   C13 — property theorems.  "Reading a graph never changes it: serialise, query, compare are pure."
 
@@ -53,6 +53,42 @@ def Statement_namespaces_may_grow : Prop :=
     (∀ n ∈ s.ns, n ∈ (s.run r).1.ns) ∧
     (∀ n ∈ (s.run r).1.ns, n ∈ s.ns ∨ r.mayBindNs s n)
 
+/-- Prefix bindings, EXACTLY: after a read the namespaces with a prefix are those that had one before plus
+    every namespace `mayBindNs` names — each predicate namespace of a triple the Turtle-family / RDF-XML
+    serializers write (pretty-xml: and each class namespace), every predicate namespace of the dataset for TriG,
+    the namespace of the IRI handed to `qname`; nothing for any other read. -/
+def Statement_namespaces_exact : Prop :=
+  ∀ (s : State) (r : ReadOp) (n : Nat), WF s →
+    (n ∈ (s.run r).1.ns ↔ n ∈ s.ns ∨ r.mayBindNs s n)
+
+/-- a read binds everything it is going to bind the FIRST time: the same read again adds no prefix
+    (with `read_frame` and `read_deterministic`: reading twice is reading once, on all three axes) -/
+def Statement_bindings_idempotent : Prop :=
+  ∀ (s : State) (r : ReadOp) (n : Nat), WF s →
+    (n ∈ ((s.run r).1.run r).1.ns ↔ n ∈ (s.run r).1.ns)
+
+/-- a read through a `Graph` VIEW of one context (`ds.get_context(g)`, any `g` — also an unknown or empty one):
+    quads, registered graphs (literally: a view never registers the default graph) and the dataset's configuration
+    unchanged, bindings only grow, and the same read again gives the same answer -/
+def Statement_view_read_frame : Prop :=
+  ∀ (s : State) (g : GName) (r : ReadOp), WF s →
+    (s.runView g r).1.quads = s.quads ∧ (s.runView g r).1.known = s.known ∧
+    (s.runView g r).1.defaultUnion = s.defaultUnion ∧ (s.runView g r).1.isDataset = s.isDataset ∧
+    (s.runView g r).1.dname = s.dname ∧ (∀ n ∈ s.ns, n ∈ (s.runView g r).1.ns) ∧
+    (s.runView g r).2 = ((s.runView g r).1.runView g r).2
+
+/-- `ReadOnlyGraphAggregate` over views of the store (member list `gs`, duplicates allowed): `triples(pat)` are exactly
+    the matching triples some member holds (the skipping of triples an earlier member holds loses nothing),
+    `pat in agg` says whether there is one, `quads(pat)` are exactly the members' matching quads; and the four
+    reads leave the state literally unchanged -/
+def Statement_aggregate_reads : Prop :=
+  ∀ (s : State) (gs : List GName) (pat : Pat),
+    (∀ t, t ∈ aggTriples s.quads pat [] gs ↔ pat.matches t = true ∧ ∃ g ∈ gs, (t, g) ∈ s.quads) ∧
+    (aggContains s.quads pat gs = true ↔ ∃ t, t ∈ aggTriples s.quads pat [] gs) ∧
+    (∀ q, q ∈ aggQuads s.quads pat gs ↔ pat.matches q.1 = true ∧ q.2 ∈ gs ∧ q ∈ s.quads) ∧
+    (s.run (.aggLen gs)).1 = s ∧ (s.run (.aggTriples gs pat)).1 = s ∧
+    (s.run (.aggContains gs pat)).1 = s ∧ (s.run (.aggQuads gs pat)).1 = s
+
 /-- the pre-fix JSON-LD serializer (kept as `serializeJsonldBuggy`) would satisfy the frame clause -/
 def Statement_jsonld_buggy_frame : Prop :=
   ∀ (s : State), WF s → s.serializeJsonldBuggy.1.quads = s.quads
@@ -105,11 +141,16 @@ theorem namespaces_may_grow : Statement_namespaces_may_grow := by
           · exact Or.inr h2
         · exact Or.inr h1
       | serializeLongTurtle nsOf c f =>
-        rcases preprocessTriples_ns_mem nsOf _ _ n hn with h1 | h1
-        · rcases preprocessTriples_ns_mem nsOf _ _ n h1 with h2 | h2
-          · exact Or.inl h2
-          · exact Or.inr h2
-        · exact Or.inr h1
+        simp only [State.run, State.serializeLongTurtle] at hn
+        split at hn
+        · exact Or.inl hn
+        · next hc =>
+          have hc' : (c && s.isDataset) = false := by simpa using hc
+          rcases preprocessTriples_ns_mem nsOf _ _ n hn with h1 | h1
+          · rcases preprocessTriples_ns_mem nsOf _ _ n h1 with h2 | h2
+            · exact Or.inl h2
+            · exact Or.inr ⟨hc', h2⟩
+          · exact Or.inr ⟨hc', h1⟩
       | serializeXml nsOf =>
         rcases bindPredicates_ns_mem nsOf _ _ n hn with h1 | h1
         · rcases bindPredicates_ns_mem nsOf _ _ n h1 with h2 | h2
@@ -131,6 +172,62 @@ theorem namespaces_may_grow : Statement_namespaces_may_grow := by
         · exact Or.inl h1
         · exact Or.inr h2
       | _ => exact absurd rfl hb
+
+theorem namespaces_exact : Statement_namespaces_exact := by
+  intro s r n h
+  constructor
+  · exact (namespaces_may_grow s r h).2.2 n
+  · rintro (h1 | h1)
+    · exact (namespaces_may_grow s r h).2.1 n h1
+    · cases r with
+      | serializeTurtle nsOf => exact preprocessTriples_ns_complete nsOf _ _ n h1
+      | serializeLongTurtle nsOf c f =>
+        obtain ⟨hc, h2⟩ := h1
+        simp only [State.run, State.serializeLongTurtle, hc]
+        exact preprocessTriples_ns_complete nsOf _ _ n h2
+      | serializeXml nsOf => exact bindPredicates_ns_complete nsOf _ _ n h1
+      | serializePrettyXml nsOf ty d =>
+        obtain ⟨t, ht, h2 | h2⟩ := h1
+        · exact (bindTypes_nsExt nsOf ty _ _).mono n (bindPredicates_ns_complete nsOf _ _ n ⟨t, ht, h2⟩)
+        · exact bindTypes_ns_complete nsOf ty _ _ n ⟨t, ht, h2⟩
+      | serializeTrig nsOf =>
+        obtain ⟨q, hq, hn⟩ := h1
+        apply trigPreprocess_ns_complete
+        refine ⟨q, by rw [contextsCall_quads]; exact hq, ?_, hn⟩
+        apply mem_trigContexts
+        rw [contextsCall_snd]
+        exact (contextsCall_known_mem s q.2).mpr (Or.inl (h.1 q hq))
+      | qname nsOf t => exact getQName_ns_gen h1
+      | _ => exact False.elim h1
+
+theorem bindings_idempotent : Statement_bindings_idempotent := by
+  intro s r n h
+  have f := run_frame h r
+  have hw := run_wf h r
+  rw [namespaces_exact _ r n hw]
+  constructor
+  · rintro (h1 | h1)
+    · exact h1
+    · exact (namespaces_exact s r n h).mpr
+        (Or.inr ((mayBindNs_congr f.quads f.union f.dname f.isDataset r n).mp h1))
+  · exact Or.inl
+
+theorem view_read_frame : Statement_view_read_frame := by
+  intro s g r h
+  have f := runView_nsExt h g r
+  exact ⟨f.quads, f.known, f.union, f.isDataset, f.dname, f.mono, runView_deterministic h g r⟩
+
+theorem aggregate_reads : Statement_aggregate_reads := by
+  intro s gs pat
+  have ht : ∀ t, t ∈ aggTriples s.quads pat [] gs ↔ pat.matches t = true ∧ ∃ g ∈ gs, (t, g) ∈ s.quads := by
+    intro t
+    rw [mem_aggTriples]
+    simp
+  refine ⟨ht, ?_, fun q => mem_aggQuads s.quads pat q gs, rfl, rfl, rfl, rfl⟩
+  rw [aggContains_iff]
+  constructor
+  · rintro ⟨t, h1, h2⟩; exact ⟨t, (ht t).mpr ⟨h1, h2⟩⟩
+  · rintro ⟨t, h⟩; exact ⟨t, (ht t).mp h⟩
 
 theorem same_store_view_is_noop : Statement_same_store_view_is_noop := by
   intro s g h
@@ -180,13 +277,15 @@ example : WF sample := by decide
 example : WF witness := by decide
 /-- `graphs()` on `witness` really registers the default graph (the normalisation is needed) … -/
 example : (witness.run .graphs).1.known = [.bnode 3, .dflt] ∧ witness.known = [.bnode 3] := by decide
-/-- … and quad membership through a same-store view really executes store writes that change nothing -/
-example : (sample.run (.contains4 (none, none, none) (.view (.bnode 3)))).1.quads = sample.quads ∧
-    (sample.run (.contains4 (some 4, none, none) (.view (.bnode 3)))).2 = .bool true := by decide
+/-- … quad membership through a same-store view: the view is used as it is (no self-copy any more), the answer is
+    about THAT graph; the self-copy of the earlier code (`graphView`) really executed store writes that changed nothing -/
+example : (sample.run (.contains4 (none, none, none) (.view (.bnode 3)))).1 = sample ∧
+    (sample.run (.contains4 (some 4, none, none) (.view (.bnode 3)))).2 = .bool true ∧
+    (sample.run (.contains4 (some 1, none, none) (.view (.bnode 3)))).2 = .bool false ∧
+    (sample.graphView (.bnode 3)) = sample := by decide
 /-- without `WF` (a quad whose graph was never registered) the self-copy WOULD register the graph:
     the hypothesis is used -/
-example : ¬ SetEq ((⟨[((1, 10, 2), .iri 7)], [], false, true, .dflt, []⟩ : State).run
-      (.quads4 (none, none, none) (.view (.iri 7)))).1.graphNames
+example : ¬ SetEq ((⟨[((1, 10, 2), .iri 7)], [], false, true, .dflt, []⟩ : State).graphView (.iri 7)).graphNames
     (⟨[((1, 10, 2), .iri 7)], [], false, true, .dflt, []⟩ : State).graphNames := by
   intro h
   exact absurd ((h (.iri 7)).mp (by decide)) (by decide)
@@ -197,21 +296,21 @@ def sampleDocs : GName → Option (List Triple)
 
 /-- FROM / FROM NAMED: the answer is computed from scratch copies, the dataset is returned untouched -/
 example : (sample.run (.query ⟨[.dflt (.iri 1), .named (.bnode 3)], true, [], true, sampleDocs,
-      fun v => [[v.dflt.length, v.named.length]], .select⟩)) = (sample, .rows [[1, 1]]) := by decide
+      fun v => [[v.dflt.length, v.named.length]], .select, true⟩)) = (sample, .rows [[1, 1]]) := by decide
 /-- one known non-empty FROM graph plus a LOADABLE document (the shape of seeded change C13-4): the document's
     triples join the scratch default graph (1 + 2 triples are visible to the query), the dataset is untouched;
     with SPARQL_LOAD_GRAPHS off nothing is loaded; an IRI that cannot be loaded raises — state untouched -/
 example : (sample.run (.query ⟨[.dflt (.iri 1), .dflt (.iri 50)], false, [], true, sampleDocs,
-      fun v => [[v.dflt.length]], .select⟩)) = (sample, .rows [[3]]) := by decide
+      fun v => [[v.dflt.length]], .select, true⟩)) = (sample, .rows [[3]]) := by decide
 example : (sample.run (.query ⟨[.dflt (.iri 1), .dflt (.iri 50)], false, [], false, sampleDocs,
-      fun v => [[v.dflt.length]], .select⟩)) = (sample, .rows [[1]]) := by decide
+      fun v => [[v.dflt.length]], .select, true⟩)) = (sample, .rows [[1]]) := by decide
 example : (sample.run (.query ⟨[.dflt (.iri 1), .named (.iri 51)], false, [], true, sampleDocs,
-      fun v => [[v.dflt.length]], .select⟩)) = (sample, .err) := by decide
+      fun v => [[v.dflt.length]], .select, true⟩)) = (sample, .err) := by decide
 /-- CONSTRUCT and DESCRIBE fill a fresh result graph; `GRAPH <g>` switches the context's graph, not the dataset -/
 example : (sample.run (.query ⟨[], false, [.bnode 3], true, sampleDocs,
-      fun v => (v.named.map (fun b => b.2.length)) :: [], .construct (fun r => r.map (fun x => (x, x, x)))⟩))
+      fun v => (v.named.map (fun b => b.2.length)) :: [], .construct (fun r => r.map (fun x => (x, x, x))), true⟩))
     = (sample, .triples [(2, 2, 2)]) := by decide
-example : (sample.run (.query ⟨[], false, [], true, sampleDocs, fun _ => [[1]], .describe (fun _ => false)⟩))
+example : (sample.run (.query ⟨[], false, [], true, sampleDocs, fun _ => [[1]], .describe (fun _ => false), true⟩))
     = (sample, .triples [(1, 10, 2)]) := by decide
 
 /-! ### prefix bindings: really written by some reads, never part of the frame -/
@@ -229,8 +328,12 @@ example : (sample.run (.serializeTurtle sampleNs)).1 = { sample with ns := [7, 8
 /-- pretty-xml with `rdf:type` = 11 additionally binds the namespace of the class 20 -/
 example : (sample.run (.serializePrettyXml sampleNs 11 3)).1.ns = [7, 8, 9] := by decide
 /-- longturtle with `canon=True` reads a relabelled scratch copy but still binds in the ORIGINAL's tables -/
-example : (sample.run (.serializeLongTurtle sampleNs true (fun ts => ts.map (fun t => (t.1 + 100, t.2.1, t.2.2))))).1
-    = { sample with ns := [7, 8] } := by decide
+example : (({ sample with isDataset := false } : State).run
+      (.serializeLongTurtle sampleNs true (fun ts => ts.map (fun t => (t.1 + 100, t.2.1, t.2.2))))).1
+    = { sample with isDataset := false, ns := [7, 8] } := by decide
+/-- … on a `Dataset` `canon=True` raises while canonicalising (iteration yields quads): nothing is bound -/
+example : sample.run (.serializeLongTurtle sampleNs true (fun ts => ts.map (fun t => (t.1 + 100, t.2.1, t.2.2))))
+    = (sample, .err) := by decide
 /-- TriG registers the default graph (already registered here) and binds per context -/
 example : (sample.run (.serializeTrig sampleNs)).1 = { sample with ns := [7, 8] } := by decide
 /-- a patch against another dataset builds two scratch datasets; `sample` itself is returned -/
@@ -238,6 +341,30 @@ example : (sample.run (.serializePatchTarget [((1, 10, 2), .dflt), ((9, 9, 9), .
 /-- nquads / json-ld / queries / compare / skolemize(new_graph=None) bind nothing -/
 example : (sample.run .serializeCtxs).1 = sample ∧ (sample.run .serializeJsonld).1 = sample ∧
     (sample.run (.skolemize (· + 1000))).1 = sample := by decide
+
+/-! ### round g: exact bindings, views -/
+
+/-- Turtle through a VIEW of the blank-node-named graph (predicate 11, namespace 8): binds 8, registers nothing, and
+    the dataset keeps its own configuration; through a view of an UNKNOWN graph nothing at all happens -/
+example : (sample.runView (.bnode 3) (.serializeTurtle sampleNs)).1 = { sample with ns := [7, 8] } ∧
+    (sample.runView (.bnode 3) (.serializeTurtle sampleNs)).2 = .triples [(4, 11, 20), (4, 11, 5)] ∧
+    (sample.runView (.iri 77) (.serializeTurtle sampleNs)) = (sample, .triples []) := by decide
+/-- on `witness` (default graph not registered) a view read does NOT register it, the dataset's own `graphs()` does -/
+example : (witness.runView (.bnode 3) .serializeCtxs).1 = witness ∧ (witness.run .serializeCtxs).1 ≠ witness := by decide
+
+/-- an aggregate over the default graph, `urn:g:1` and the default graph again: `len` counts the shared triple three
+    times, `triples` yields it once, `quads` once per member -/
+example : (sample.run (.aggLen [.dflt, .iri 1, .dflt])).2 = .nat 3 ∧
+    (sample.run (.aggTriples [.dflt, .iri 1, .dflt] (none, none, none))).2 = .triples [(1, 10, 2)] ∧
+    (sample.run (.aggQuads [.dflt, .iri 1, .dflt] (some 1, none, none))).2
+      = .quads [((1, 10, 2), .dflt), ((1, 10, 2), .iri 1), ((1, 10, 2), .dflt)] ∧
+    (sample.run (.aggContains [.iri 1] (some 4, none, none))).2 = .bool false := by decide
+/-- `len` of a Dataset counts every triple of the store once (not the default graph, not per graph); iterating it
+    yields quads; `quads((…, g))` selects in `g` but reports every graph holding the triple -/
+example : (({ sample with defaultUnion := false } : State).run .len).2 = .nat 3 ∧
+    (sample.run .iter).2 = .quads sample.quads ∧
+    (sample.run (.quads4 (none, none, none) (.ident (.iri 1)))).2
+      = .quads [((1, 10, 2), .dflt), ((1, 10, 2), .iri 1)] := by decide
 
 /-! ### `skolemize(new_graph=…)`: a fresh graph is a read, a graph of the same store is a write -/
 
